@@ -2477,6 +2477,25 @@ for _k, _kind in [
     CONTRACT[_k] = "total"
 
 
+def _cls(*ranges):
+    out = IntSet.empty()
+    for lo, hi in ranges:
+        out = out.union(IntSet.range(lo, hi))
+    return out
+
+
+# nom 7.1.3 src/character/mod.rs (pinned): the byte predicates
+NOM_BYTE_CLASSES = {
+    "nom::character::is_digit": _cls((0x30, 0x39)),
+    "nom::character::is_hex_digit": _cls((0x30, 0x39), (0x41, 0x46), (0x61, 0x66)),
+    "nom::character::is_oct_digit": _cls((0x30, 0x37)),
+    "nom::character::is_alphabetic": _cls((0x41, 0x5A), (0x61, 0x7A)),
+    "nom::character::is_alphanumeric": _cls((0x30, 0x39), (0x41, 0x5A), (0x61, 0x7A)),
+    "nom::character::is_space": _cls((0x20, 0x20), (0x09, 0x09)),
+    "nom::character::is_newline": _cls((0x0A, 0x0A)),
+}
+
+
 def byte_class_of(I, st, f, what):
     """the set of byte values on which a predicate (closure without symbolic captures, or a local
     function) returns true; exact or Unanalysable"""
@@ -2489,6 +2508,9 @@ def byte_class_of(I, st, f, what):
     else:
         raise Unanalysable("%s: predicate is %r" % (what, f))
     if defn not in I.f.bodies:
+        known = NOM_BYTE_CLASSES.get(defn)
+        if known is not None and not ups:
+            return known
         raise Unanalysable("%s: predicate %s has no analysable body" % (what, defn))
     argsets = [IntSet.range(0, 255)]
     for u in ups:
